@@ -1,4 +1,3 @@
-import NasimModel.Generated.GenExamples
 import NasimModel.Generated.GeneratorOk
 import NasimModel.Proofs.GenInv
 import NasimModel.Proofs.GenHosts
@@ -890,30 +889,5 @@ theorem C15_no_division_by_zero (alpha : Rat) (n : Nat) (ha : 0 < alpha) (hn : 1
     0 < alpha + (n : Rat) - 1 := by
   have h1 : (1 : Rat) ≤ (n : Rat) := by exact_mod_cast hn
   grind
-
-/-- non-vacuity: the hypothesis `generate p s = .ok (sc, s')` of the theorems above is met by what
-the repository's generator really does — the recorded decision streams of two benchmark
-parameter sets (regenerated on every run) replay through the model in the kernel -/
-theorem C15_hypotheses_satisfiable :
-    (∃ sc s', generate Generated.tiny_gen_params Generated.tiny_gen_stream = .ok (sc, s')) ∧
-    (∃ sc s', generate Generated.small_gen_params Generated.small_gen_stream = .ok (sc, s')) := by
-  constructor
-  · have h := Generated.tiny_gen_replays
-    cases hg : generate Generated.tiny_gen_params Generated.tiny_gen_stream with
-    | error e => simp [hg] at h
-    | ok r => exact ⟨r.1, r.2, rfl⟩
-  · have h := Generated.small_gen_replays
-    cases hg : generate Generated.small_gen_params Generated.small_gen_stream with
-    | error e => simp [hg] at h
-    | ok r => exact ⟨r.1, r.2, rfl⟩
-
-
-/-- C15 on what the code really does: the NumPy decisions recorded in `generate_scenario` for each of
-the repository's nine generated benchmarks (parameters and streams regenerated on every run) replay
-through the model generator in the kernel — no decision left over, all fifteen postconditions hold,
-and the model's scenario *is* the scenario the repository's generator returned -/
-theorem C15_benchmarks_replay :
-    ∀ r ∈ Generated.gen_benchmark_runs, ∃ sc s', generate r.1 r.2 = .ok (sc, s') :=
-  Generated.gen_benchmark_runs_return
 
 end NASim.Gen
